@@ -100,8 +100,11 @@ func runScript(t *testing.T, run *vt.Run, c vt.CaseID, rng *rand.Rand, gossip bo
 		sameSeed := rng.IntN(2) == 0
 		for i := range ids {
 			ids[i] = &identity{cfg: randomCfg(rng, i, dir), ready: map[int]bool{}}
-			if sameSeed {
-				// identical generators draw identical candidates: only the taken-token check keeps them apart
+			if sameSeed && !(gossip && ids[i].cfg.TokensFile != "") {
+				// identical generators draw identical candidates: only the taken-token check keeps them apart.
+				// (Not for tokens-file identities on the merging store: a restart loads its old tokens from the file
+				// without asking who holds them now, and the store's conflict resolution then strips them from the
+				// other instance - the known finding's territory, not this property's.)
 				ids[i].cfg.Seed = sharedSeed
 			}
 		}
@@ -168,6 +171,7 @@ func runScript(t *testing.T, run *vt.Run, c vt.CaseID, rng *rand.Rand, gossip bo
 		// of its entry to a foreign entry. The lifecycler has to notice at the end of the observe period, replace
 		// the token and keep observing.
 		thefts := 0
+		stolenFrom := map[string]bool{}
 		steal := func() {
 			for _, id := range ids {
 				in := id.cur()
@@ -201,6 +205,7 @@ func runScript(t *testing.T, run *vt.Run, c vt.CaseID, rng *rand.Rand, gossip bo
 				})
 				synctest.Wait()
 				if err == nil && stolen != 0 {
+					stolenFrom[id.cfg.ID] = true
 					run.Count("tokens_stolen_during_observe", 1)
 					log("token %d of %s moved to %s while it observes", stolen, id.cfg.ID, tid)
 				}
@@ -358,7 +363,7 @@ func runScript(t *testing.T, run *vt.Run, c vt.CaseID, rng *rand.Rand, gossip bo
 		synctest.Wait()
 		st.Release()
 		synctest.Wait()
-		ck := lcsim.Checker{Store: st, Insts: all, Marks: marks, T0: t0, EndAt: end, ClaimVictims: victims, Records: rlog.Records(), CheckInherited: !gossip}
+		ck := lcsim.Checker{Store: st, Insts: all, Marks: marks, T0: t0, EndAt: end, ClaimVictims: victims, Records: rlog.Records(), CheckInherited: !gossip, Stolen: stolenFrom}
 		findings, stats := ck.Check()
 		for _, f := range findings {
 			viol(f.Sig, f.What, f.Detail)
